@@ -1,0 +1,9 @@
+//go:build !verif
+
+// Package verifhook provides instrumentation points for external verification
+// harnesses. Without the "verif" build tag every function here is an empty
+// stub that the compiler inlines away.
+package verifhook
+
+// Point marks an interior step of the library (no-op without the verif tag).
+func Point(site string) {}
